@@ -279,6 +279,13 @@ func Run(c *run.Ctx) {
 		fs.Put("/w/t/sub/.git/x_test.arrai", "(h: true))")
 		c.Probe("hidden-dir-with-broken-test")
 	}
+	// hidden regular files are not hidden directories: they must not end the walk of their directory
+	for _, f := range files {
+		if t.Bool(1, 3) {
+			fs.Put(strings.TrimSuffix(f.path, "/"+pathBase(f.path))+"/"+[]string{".gitignore", ".DS_Store", ".hidden.arrai"}[t.Draw(3)], "false")
+			c.Probe("hidden-file-next-to-test-file")
+		}
+	}
 	if t.Bool(1, 2) {
 		fs.Put("/w/t/notes.txt", "false")
 		fs.Put("/w/t/broken.arrai", "1 +")
@@ -421,6 +428,8 @@ func Run(c *run.Ctx) {
 		}
 	}
 }
+
+func pathBase(p string) string { return p[strings.LastIndex(p, "/")+1:] }
 
 func why(reach []*tfile) string {
 	for _, f := range reach {
